@@ -240,3 +240,101 @@ Proof.
   destruct (resolve_render _ _ _ _ _ _ _) as [rn fac].
   destruct (needs_ok _ _ _ _); [|discriminate]. intros H. inversion H; subst. simpl. repeat split; reflexivity.
 Qed.
+
+(* ---------------- nested merging = ONE keep-first pass over the flat list ---------------- *)
+(* merge_into acc l is a left-to-right pass that appends each element of l to acc unless it is a unique type already
+   present (then: skipped if reorderable, ValueError otherwise).  Embedding merges twice - the route's list into
+   the inner application's, the result into the outer one's; the flat declaration merges once.  They agree. *)
+Lemma merge_into_app a : forall acc b,
+  merge_into acc (a ++ b) = match merge_into acc a with Ok acc' => merge_into acc' b | Raise c => Raise c end.
+Proof.
+  induction a as [|m r IH]; intros acc b; cbn [app merge_into]; [reflexivity|].
+  destruct (w_unique m && existsb (fun x => Nat.eqb (w_type x) (w_type m)) acc).
+  - destruct (w_reorderable m); [apply IH|reflexivity].
+  - apply IH.
+Qed.
+
+Definition has_wtype (t : nat) (l : list wmw) : bool := existsb (fun x => Nat.eqb (w_type x) t) l.
+
+Lemma has_wtype_app t a b : has_wtype t (a ++ b) = has_wtype t a || has_wtype t b.
+Proof. unfold has_wtype. apply existsb_app. Qed.
+
+(* every type of the accumulator and of the merged list is present in the result *)
+Lemma merge_into_types l : forall acc res t, merge_into acc l = Ok res ->
+  has_wtype t res = has_wtype t acc || has_wtype t l.
+Proof.
+  induction l as [|m r IH]; intros acc res t H; cbn [merge_into] in H.
+  - inversion H; subst. cbn. rewrite orb_false_r. reflexivity.
+  - destruct (w_unique m && existsb (fun x => Nat.eqb (w_type x) (w_type m)) acc) eqn:E.
+    + destruct (w_reorderable m); [|discriminate]. rewrite (IH _ _ t H).
+      apply andb_prop in E. destruct E as [_ E].
+      unfold has_wtype. cbn [existsb].
+      destruct (Nat.eqb (w_type m) t) eqn:Et; cbn [orb]; [|reflexivity].
+      apply Nat.eqb_eq in Et. subst t. rewrite E. reflexivity.
+    + rewrite (IH _ _ t H), has_wtype_app. cbn [has_wtype existsb]. rewrite orb_false_r, orb_assoc. reflexivity.
+Qed.
+
+(* the heart: merging [route] into [inner_acc] and the result into [outer] is merging [route] into (outer merged with inner_acc) *)
+Lemma merge_nested_step outer route : forall inner_acc flat_acc,
+  merge_into outer inner_acc = Ok flat_acc ->
+  match merge_into inner_acc route with
+  | Ok l1 => merge_into outer l1
+  | Raise c => Raise c
+  end = merge_into flat_acc route.
+Proof.
+  induction route as [|m r IH]; intros inner_acc flat_acc Hf; cbn [merge_into].
+  - exact Hf.
+  - pose proof (merge_into_types inner_acc outer flat_acc (w_type m) Hf) as Ht. unfold has_wtype in Ht.
+    destruct (w_unique m) eqn:Eu; cbn [andb].
+    + destruct (existsb (fun x => Nat.eqb (w_type x) (w_type m)) inner_acc) eqn:Ei.
+      * (* skipped (or refused) already at the inner level: the flat accumulator has the type too *)
+        rewrite Ht; rewrite ?Ei, ?orb_true_r. destruct (w_reorderable m); [apply IH; exact Hf|reflexivity].
+      * (* kept at the inner level *)
+        rewrite Ht; rewrite ?Ei, ?orb_false_r.
+        destruct (existsb (fun x => Nat.eqb (w_type x) (w_type m)) outer) eqn:Eo.
+        -- (* present in the outer list: dropped when merging into it *)
+           destruct (w_reorderable m) eqn:Er.
+           ++ apply IH. rewrite merge_into_app, Hf. cbn [merge_into]. rewrite Eu. cbn [andb].
+              rewrite Ht; rewrite ?Ei, ?Eo; cbn [orb]; rewrite ?Er; reflexivity.
+           ++ (* the nested merge fails when it reaches m in the second pass *)
+              destruct (merge_into (inner_acc ++ [m]) r) as [l1|c] eqn:E1.
+              ** destruct (merge_into_shape r (inner_acc ++ [m]) l1 E1) as [k [-> _]].
+                 rewrite <- app_assoc. rewrite merge_into_app, Hf. cbn [app merge_into]. rewrite Eu. cbn [andb].
+                 rewrite Ht; rewrite ?Ei, ?Eo; cbn [orb]; rewrite ?Er; reflexivity.
+              ** (* both fail; the classes agree: ValueError is the only one *)
+                 clear -E1. revert E1. generalize (inner_acc ++ [m]). induction r as [|x r IHr]; intros acc E1; cbn [merge_into] in E1; [discriminate|].
+                 destruct (w_unique x && existsb (fun y => Nat.eqb (w_type y) (w_type x)) acc).
+                 --- destruct (w_reorderable x); [apply (IHr acc); exact E1|inversion E1; reflexivity].
+                 --- apply (IHr (acc ++ [x])). exact E1.
+        -- apply IH. rewrite merge_into_app, Hf. cbn [merge_into]. rewrite Eu. cbn [andb]. rewrite Ht; rewrite ?Ei, ?Eo; reflexivity.
+    + apply IH. rewrite merge_into_app, Hf. cbn [merge_into]. rewrite Eu. reflexivity.
+Qed.
+
+(* C10: the middleware list of a route embedded through an inner application into an outer one is the ONE flat
+   keep-first pass over  outer ++ inner ++ route  (each application's own list taken as it is) - success and failure alike *)
+Theorem nested_merge_is_flat route_mws inner_mws outer_mws :
+  match merge_mws route_mws inner_mws with
+  | Ok l1 => merge_mws l1 outer_mws
+  | Raise c => Raise c
+  end =
+  match merge_into outer_mws inner_mws with
+  | Ok acc => merge_into acc route_mws
+  | Raise c => Raise "ValueError"
+  end.
+Proof.
+  unfold merge_mws.
+  destruct (merge_into outer_mws inner_mws) as [acc|c] eqn:Ef.
+  - apply merge_nested_step. exact Ef.
+  - (* the outer/inner merge itself fails: so does the nested one, whatever the route adds *)
+    destruct (merge_into inner_mws route_mws) as [l1|c1] eqn:E1.
+    + destruct (merge_into_shape route_mws inner_mws l1 E1) as [k [-> _]].
+      rewrite merge_into_app, Ef.
+      clear -Ef. revert Ef. generalize outer_mws. induction inner_mws as [|x r IHr]; intros acc Ef; cbn [merge_into] in Ef; [discriminate|].
+      destruct (w_unique x && existsb (fun y => Nat.eqb (w_type y) (w_type x)) acc).
+      * destruct (w_reorderable x); [apply (IHr acc); exact Ef|inversion Ef; reflexivity].
+      * apply (IHr (acc ++ [x])). exact Ef.
+    + clear -E1. revert E1. generalize inner_mws. induction route_mws as [|x r IHr]; intros acc E1; cbn [merge_into] in E1; [discriminate|].
+      destruct (w_unique x && existsb (fun y => Nat.eqb (w_type y) (w_type x)) acc).
+      * destruct (w_reorderable x); [apply (IHr acc); exact E1|inversion E1; reflexivity].
+      * apply (IHr (acc ++ [x])). exact E1.
+Qed.
